@@ -220,6 +220,7 @@ package db
 //@   free-requires db != nil && !searching
 //@   closure-invariant [normalised] MASTER_OK(objects)
 //@   ensures [nostop] !done
+//@   ensures [kept-or-failed] err == nil ==> len(objects) == old(len(objects)) + 1
 //@   ghost-exit pos = old(pos) + 1
 
 //@ func (*db.Database).Table
